@@ -300,6 +300,8 @@ type node struct {
 	// view is the per-id snapshot taken by the last observation (reused by the
 	// step generator; nothing happens between an observation and the next step)
 	view map[string]idView
+	// head-updater pacing chosen by the schedule (see epilogue)
+	stall, slow int
 }
 
 type idView struct {
@@ -338,6 +340,7 @@ func (n *node) start(create bool, deleterBeforeSettings bool) (err error) {
 	n.lastState = nil
 	n.changes = nil
 	n.view = nil
+	n.stall, n.slow = 0, 0
 
 	// component registry used only for the Init of real components
 	n.reg = new(app.App)
